@@ -10,6 +10,7 @@ from __future__ import annotations
 
 import ast
 import itertools
+import os
 import time
 import traceback
 
@@ -725,9 +726,14 @@ def verify(spec, registry=None, max_paths=400, only_clauses=None, only_cfg=None)
         out["obligations"] += [_solve_vc(i) for i in range(len(vcs))]
     # verdicts must not flip because all cores were busy: undecided VCs get a second, serial attempt with a longer budget
     base_len = len(out["obligations"]) - len(vcs)
+    open_ones = [i for i in range(len(vcs)) if out["obligations"][base_len + i].get("status") == "undecided"
+                 and "UNSUPPORTED" not in str(out["obligations"][base_len + i].get("reason"))]
+    # a few stragglers are what load produces; many open obligations mean the contract no longer fits the code (or the
+    # code changed): retrying them one by one would only burn the time the bounded tier needs
+    retry_ok = len(open_ones) <= int(os.environ.get("PYVC_MAX_SERIAL_RETRIES", "3"))
     for i in range(len(vcs)):
         ob = out["obligations"][base_len + i]
-        if ob.get("status") == "undecided" and "UNSUPPORTED" not in str(ob.get("reason")) and _SOLVE["retries"]:
+        if retry_ok and ob.get("status") == "undecided" and "UNSUPPORTED" not in str(ob.get("reason")) and _SOLVE["retries"]:
             old_t = smt.Z3_TIMEOUT_MS
             smt.Z3_TIMEOUT_MS = old_t * int(spec.get("_retry_factor", 3))
             try:
